@@ -122,7 +122,7 @@ def classify(ctx, dist, distinct, runs, what, lockstep=True):
 def run(ctx):
     ctx.cov["trusted_base"] += [
         "vrt/vrt.cpp (TSan-ABI interposition, deterministic scheduler, virtual clock, clock hook used to stall a thread right after a clock read) and the TSan-instrumented build",
-        "executions are sequentially consistent interleavings; one model step = one atomic operation / clock read plus the thread-local allocator and constructor work that follows it; memory orders are tied statically (skeleton obligations), by trace equality and by the HB race monitor on element payload",
+        "protocol theorems are over sequentially consistent interleavings; the publication clause (element constructed before the table CAS is visible, incl. the loser's failure order and later tables of the release sequence) is additionally proved over the release/acquire view model of Core/MemView.lean with the extracted orders (Babylon/CVec/View.lean: cvec_publication_view*, negative controls by decide); one model step = one atomic operation / clock read plus the thread-local allocator and constructor work that follows it; memory orders are tied statically (skeleton obligations), by trace equality and by the HB race monitor on element payload",
         "harness/c04.cpp replaces the global aligned operator new/delete with a never-reusing arena and numbers allocations; retire-list node addresses are never reused inside a run or in the model (ABA on a reused node address needs one retire/gc call stalled for 2^16 stamp units = 48.5 days)",
         "CLOCK_MONOTONIC_RAW is monotone; '64 s' is virtual time",
         "index arithmetic theorems assume index / block_size < 2^32 (block_index returns uint32_t) and block_size_hint <= 2^31",
